@@ -35,6 +35,7 @@ import (
 	"sort"
 	"strings"
 	"sync"
+	"time"
 
 	"github.com/klauspost/compress/s2"
 	ksnappy "github.com/klauspost/compress/snappy"
@@ -310,14 +311,14 @@ func genScript(r *rand.Rand, data []byte, allowFail bool) (*scriptReader, string
 		switch r.Intn(5) {
 		case 0:
 			sr.steps = append(sr.steps, 0)
-			f = append(f, "src=(0,nil)-read")
+			f = append(f, "src=zero-nil-read")
 		default:
 			sr.steps = append(sr.steps, 1+r.Intn(2000))
 		}
 	}
 	if r.Intn(2) == 0 {
 		sr.eofWithData = true
-		f = append(f, "src=(n>0,EOF)")
+		f = append(f, "src=data-with-EOF")
 	}
 	if allowFail && r.Intn(12) == 0 {
 		sr.fails = true
@@ -1261,7 +1262,7 @@ func readMixed(r *rand.Rand, rd io.Reader, sizes []int, noReadThenCopy bool) ([]
 		return got.Bytes(), err
 	}
 	var got bytes.Buffer
-	buf := make([]byte, 1<<20)
+	buf := make([]byte, maxOf(sizes))
 	for i, k := 0, 1+r.Intn(3); i < k; i++ {
 		n, err := rd.Read(buf[:sizes[i%len(sizes)]])
 		got.Write(buf[:n])
@@ -1277,9 +1278,19 @@ func readMixed(r *rand.Rand, rd io.Reader, sizes []int, noReadThenCopy bool) ([]
 }
 
 // read everything with the given buffer sizes (cyclically)
+func maxOf(l []int) int {
+	m := 1
+	for _, v := range l {
+		if v > m {
+			m = v
+		}
+	}
+	return m
+}
+
 func readSizes(rd io.Reader, sizes []int) ([]byte, error) {
 	var got bytes.Buffer
-	buf := make([]byte, 1<<20)
+	buf := make([]byte, maxOf(sizes))
 	for i := 0; ; i++ {
 		k := sizes[i%len(sizes)]
 		n, err := rd.Read(buf[:k])
@@ -1496,6 +1507,43 @@ func genConc(r *rand.Rand, goroutines, rounds int) {
 // many goroutines, many short streams on ONE codec value: the window between a pooled
 // object being released and being re-initialised is a few instructions wide, only a tight
 // loop of small streams finds another goroutine inside it
+// roundTripLight: write through the codec, check with the reference decoder, read back
+// through the codec — the shortest loop over NewWriter/Close/NewReader/Close, for the
+// tight concurrent run (windows of a few instructions between Put and Reset)
+func roundTripLight(r *rand.Rand, rc refCodec, codec compress.Codec, payload []byte) (why string) {
+	defer func() {
+		if p := recover(); p != nil {
+			why = fmt.Sprintf("panic:%v", p)
+		}
+	}()
+	var b bytes.Buffer
+	w := codec.NewWriter(&b)
+	if err := writeMixed(r, w, payload, []int{len(payload)}, rc.name == "lz4"); err != nil {
+		w.Close()
+		return "write:" + err.Error()
+	}
+	if err := w.Close(); err != nil {
+		return "close:" + err.Error()
+	}
+	d, err := rc.dec(b.Bytes())
+	if err != nil {
+		return "reference-decoder-rejects:" + err.Error()
+	}
+	if !bytes.Equal(d, payload) {
+		return "reference-decoder-differs"
+	}
+	rd := codec.NewReader(bytes.NewReader(b.Bytes()))
+	d, err = readMixed(r, rd, []int{len(payload) + 16}, rc.name == "gzip" || rc.name == "lz4")
+	rd.Close()
+	if err != nil {
+		return "read:" + err.Error()
+	}
+	if !bytes.Equal(d, payload) {
+		return "round-trip-differs"
+	}
+	return ""
+}
+
 func genConcTight(r *rand.Rand, rc refCodec, goroutines, rounds int) {
 	pseed := r.Int63()
 	codec := rc.shared
@@ -1509,14 +1557,62 @@ func genConcTight(r *rand.Rand, rc refCodec, goroutines, rounds int) {
 			for i := 0; i < rounds; i++ {
 				payload := []byte(fmt.Sprintf("goroutine=%02d iteration=%05d;", g, i))
 				payload = append(payload, bytes.Repeat([]byte{byte('a' + g%26)}, 16+pr.Intn(1000))...)
-				if why := roundTrip(pr, rc, codec, payload, []int{len(payload)}, []int{len(payload) + 16}); why != "" {
+				var why string
+				switch {
+				case i%16 == 0:
+					why = roundTrip(pr, rc, codec, payload, []int{len(payload)}, []int{len(payload) + 16})
+				case i%16 < 4:
+					why = roundTripLight(pr, rc, codec, payload)
+				default:
+					// burst: the cheapest loop over NewWriter/Close and NewReader/Close; an object
+					// shared by mistake shows as an empty or foreign stream / wrong bytes read back
+					why = func() (why string) {
+						defer func() {
+							if p := recover(); p != nil {
+								why = fmt.Sprintf("panic:%v", p)
+							}
+						}()
+						var b bytes.Buffer
+						w := codec.NewWriter(&b)
+						if _, err := w.Write(payload); err != nil {
+							w.Close()
+							return "write:" + err.Error()
+						}
+						if err := w.Close(); err != nil {
+							return "close:" + err.Error()
+						}
+						if b.Len() == 0 {
+							return "burst:nothing-written"
+						}
+						rd := codec.NewReader(bytes.NewReader(b.Bytes()))
+						d, err := readSizes(rd, []int{len(payload) + 16})
+						rd.Close()
+						if err != nil {
+							return "burst:read:" + err.Error()
+						}
+						if !bytes.Equal(d, payload) {
+							return "burst:round-trip-differs"
+						}
+						return ""
+					}()
+				}
+				if why != "" {
 					whys[g] = fmt.Sprintf("goroutine%d-round%d:%s", g, i, why)
 					return
 				}
 			}
 		}(g)
 	}
-	wg.Wait()
+	// a codec object shared by mistake can also deadlock its users: do not wait for ever
+	done := make(chan struct{})
+	go func() { wg.Wait(); close(done) }()
+	select {
+	case <-done:
+	case <-time.After(60 * time.Second):
+		emit("conc", fmt.Sprintf("%s %x %x %x", rc.name, pseed, goroutines, rounds), "FAIL:no-progress-for-60s(deadlock?)",
+			[]string{"codec=" + rc.name, fmt.Sprintf("goroutines=%d", goroutines), "tight"})
+		return
+	}
 	why := ""
 	for _, w := range whys {
 		if w != "" {
@@ -1798,7 +1894,7 @@ func main() {
 	nrt := flag.Int("nrt", 300, "public-API round-trip cases")
 	nhist := flag.Int("nhist", 60, "pooled-history cases")
 	nconc := flag.Int("nconc", 10, "concurrent cases")
-	ntight := flag.Int("ntight", 250, "rounds per goroutine of the tight concurrent run (per codec)")
+	ntight := flag.Int("ntight", 10000, "rounds per goroutine of the tight concurrent run (per codec)")
 	npool := flag.Int("npool", 30, "pool-discipline cases per codec side")
 	nsb := flag.Int("nsb", 200, "strict snappy block decoder cases")
 	flag.Parse()
@@ -1851,6 +1947,6 @@ func main() {
 		genConc(r, 2+r.Intn(14), 4+r.Intn(8))
 	}
 	for _, rc := range refCodecs[:5] {
-		genConcTight(r, rc, 48, *ntight)
+		genConcTight(r, rc, 64, *ntight)
 	}
 }
